@@ -253,6 +253,37 @@ for _k, (_t, _q) in ADDED.items():
     CLAIMS[_k]["text"] = CLAIMS[_k]["text"] + _t
     CLAIMS[_k]["technique"] = CLAIMS[_k]["technique"] + _q
 
+# rules added in session 3 (DESIGN.md section 4 marks each "added in session 3")
+ADDED3 = {
+    "C01": (" The message a packet is built from is assembled in storage private to the call.", "; provenance of the assembly buffer"),
+    "C02": (" Also: every byte poll that follows a delimiter finds the per-packet framing locals (index, escape flag, CRC accumulator, oversize flag) at their initial values; "
+            "the field extractors derive seq/type/data from the established position of the address terminator at offsets +1/+2/+3.",
+            "; path-sensitive abstract interpretation of the framing locals (constant / non-zero / overwritten), forward must-analysis of the terminator offset"),
+    "C03": (" Also: budget is released only behind the match of the received type with the oldest request's table-defined answers or behind that request's age test.",
+            "; guard-on-all-paths rule for the release"),
+    "C04": (" Also: a 'ready' result outside the ancestor walk is accepted only for a shortcut on the arguments or on a global counter that provably mirrors the stall flags.",
+            "; dominance of the walk over 'ready' results, counter-discipline rule"),
+    "C07": (" Also: no direction flag is computed from the decoded speed; a failed lookup never ends a walk over a container; a lookup memo is forgotten by every writer of what the lookup reads.",
+            "; expression-provenance rule, loop-exit rule on NULL lookups, memo-invalidation rule over all writers"),
+    "C08": (" Also: the position / on-track getters size and fill their results from the same containers, at the same loop depth and under the same record tests; a failed lookup never ends a walk.",
+            "; container and count/fill agreement with helper inlining, loop-exit rule on NULL lookups"),
+    "C09": (" Also: no direction flag from the decoded speed; no transmit guarded by tracked feedback state; string parameters reach string functions only behind a NULL test.",
+            "; expression provenance, control-dependence guard-provenance rule, interprocedural NULL-parameter rule"),
+    "C12": (" Also: buffers written with an extent taken from the length byte (formatted dumps, block copies) are sized by an expression that covers it; a loop that runs until a queue is empty never appends to that queue.",
+            "; linear-form comparison of allocation size and write extent (format strings evaluated), drain-loop rule"),
+    "C15": (" Also: the node-table query queues every interface row for enumeration independently of the configured-board lookup.", "; control-dependence rule on the enqueue"),
+    "C16": (" Also: no shutdown command is guarded by tracked feedback state.", "; control-dependence guard-provenance rule"),
+    "C17": (" Also: a result field copied from an entity comes from the entity's member of the same name when one exists; string parameters of the getters reach string functions only behind a NULL test (also inside the lookups they are handed to).",
+            "; same-name copy rule over expression provenance, interprocedural NULL-parameter rule"),
+    "C18": (" Also: local arrays / VLAs / heap blocks that receive a data-dependent number of bytes on the encoders' call tree are sized by an expression that covers it.",
+            "; linear-form comparison of allocation size and write extent"),
+    "C19": (" When the guarding flag is computed by a helper, every path through the helper consults the sender board.", "; must-pass-through of the board lookup in flag helpers"),
+    "C20": (" Also: the feature answers are awaited before the enable step; no start-up command is guarded by tracked feedback state.", "; dominance of the answer wait over enable, control-dependence guard-provenance rule"),
+}
+for _k, (_t, _q) in ADDED3.items():
+    CLAIMS[_k]["text"] = CLAIMS[_k]["text"] + _t
+    CLAIMS[_k]["technique"] = CLAIMS[_k]["technique"] + _q
+
 NOT_APPLICABLE = {}
 
 PENDING = "check not built yet in this session (planned: DESIGN.md section 4); not claimed until its driver exists"
